@@ -38,7 +38,7 @@ func TestSim(t *testing.T) {
 		"C33": {Run: runInflow, Opt: opt},
 		"C35": {Run: runState("C35"), Opt: opt},
 		"C36": {Run: runState("C36"), Opt: opt},
-		"C37": {Run: runFlood, Opt: opt},
+		"C37": {Run: runFlood, Opt: simrt.Options{MaxSteps: 3000000}},
 	})
 }
 
@@ -144,6 +144,7 @@ type h2eng struct {
 	outq                                                     []func()
 	resetDone                                                map[uint32]bool
 	syncSeen                                                 int
+	queuePeak                                                int
 	violationSent, sendersDone, holdAll, violationImpossible bool
 	violationAt                                              time.Duration
 
